@@ -223,7 +223,8 @@ impl<'de> serde::de::Visitor<'de> for CfgFileVisitor {
                 return Err(serde::de::Error::custom(format!("unknown locale {:?}", k)));
             }
 
-            if !locales.contains(v) {
+            // the default locale is always a known locale, even when it is not listed
+            if !locales.contains(v) && v != &default {
                 return Err(serde::de::Error::custom(format!("unknown locale {:?}", v)));
             }
         }
